@@ -1,5 +1,7 @@
 import Driver.Common
 import Model.Likelihood
+import Model.LikSession
+import Model.DbSplit
 open Lean Drv Likelihood
 
 def fn (l : List Float) : Nat → Float :=
@@ -38,6 +40,51 @@ def dictItems (j : Json) : Except String (List (String × Nat)) := do
     match a.toList with
     | [k, v] => pure (← asStr k, ← asNat v)
     | _ => throw "bad-op"
+
+
+/-! round 3: option matrix and histories -/
+
+def jOptMat : Option (List (List Float)) → Json
+  | none => Json.null
+  | some m => jMat m
+
+def jDerivs (d : Derivs Float) : Json :=
+  Json.mkObj [("f", fbits d.f), ("g", jFloats d.g), ("h", jOptMat d.h), ("b", jOptMat d.b)]
+
+/-- a table: rows of column values (columns in the order the harness fixed) -/
+abbrev Tab := List (List Float)
+
+def colOf (r : List Float) (j : Nat) : Float := r.getD j 0.0
+
+/-- the concrete edits of the history stream -/
+def editOf (j : Json) : Except String (Tab → Tab) := do
+  match ← getStr j "k" with
+  | "scale" =>
+    -- Database.scale_column(col, s): data[col] *= s
+    let c ← getNat j "col"
+    let s ← getFloat j "s"
+    pure fun t => t.map fun r => r.modify c (· * s)
+  | "remove" =>
+    -- Database.remove(Variable(col)): the rows whose value is not 0 are dropped
+    let c ← getNat j "col"
+    pure fun t => t.filter fun r => colOf r c == 0.0
+  | "addcol" =>
+    -- Database.define_variable / add_column(name, Variable(a) * c + Variable(b)): a new last column
+    let a ← getNat j "a"
+    let b ← getNat j "b"
+    let c ← getFloat j "c"
+    pure fun t => t.map fun r => r ++ [colOf r a * c + colOf r b]
+  | _ => throw "bad-op"
+
+/-- a bootstrap sample: the rows at the given positions of the current table -/
+def resampleOf (j : Json) : Except String (Tab → Tab) := do
+  let ps ← natList j
+  pure fun t => ps.map fun p => t.getD p []
+
+/-- the (weight, value) pairs of the rows for the formulas of the history stream:
+`log_like = L − (b − X)·(b − X)` at `b = b0`, `weight = W + 1/4`; columns L, X, W by position -/
+def rowsOfTab (b0 : Float) (cl cx cw : Nat) (t : Tab) : List (Float × Float) :=
+  t.map fun r => (colOf r cw + 0.25, colOf r cl - (b0 - colOf r cx) * (b0 - colOf r cx))
 
 def handle (j : Json) : Except String Json := do
   let op ← getStr j "op"
@@ -111,6 +158,82 @@ def handle (j : Json) : Except String Json := do
       ("grad", jFloats (gi.map fun i => sc (gradEntry w (mat g) N T i))),
       ("hess", jMat (gi.map fun i => gi.map fun k => sc (hessEntry w (cube hh) N T i k))),
       ("bhhh", jMat (gi.map fun i => gi.map fun k => sc (bhhhEntry w (mat g) N T i k)))])
+  | "optmatrix" =>
+    -- all 8 cells of calculate_likelihood_and_derivatives + the optimiser's functions
+    let l ← floatList (← j.getObjVal? "l")
+    let g ← floatMat (← j.getObjVal? "g")
+    let hh ← (← getArr j "h").toList.mapM floatMat
+    let w ← optW j
+    let p ← getNat j "param"
+    let cpu ← getNat j "cpu"
+    let K ← getNat j "K"
+    if cpu = 0 then throw "bad-op"
+    match ← optData j with
+    | none => throw "bad-op"
+    | some (panel, n) =>
+      let o : Obs Float := { w := w, l := fn l, g := mat g, h := cube hh }
+      let bools := [false, true]
+      let cells := bools.flatMap fun sc => bools.flatMap fun hs => bools.map fun bh =>
+        Json.mkObj [("scaled", jBool sc), ("hessian", jBool hs), ("bhhh", jBool bh),
+          ("out", jDerivs (likelihoodAndDerivatives o K panel n p cpu sc hs bh))]
+      pure (Json.mkObj [("cells", jArr cells), ("size", jNat (sampleSize panel n)),
+        ("negf", fbits (negF o panel n p cpu)),
+        ("negfg", jDerivs (negDerivs o K panel n p cpu false)),
+        ("negfgh", jDerivs (negDerivs o K panel n p cpu true))])
+  | "session" =>
+    -- one data base, several objects, edits in between (Model/LikSession.lean)
+    let t0 ← floatMat (← j.getObjVal? "table")
+    let b0 ← getFloat j "b0"
+    let cl ← getNat j "cl"
+    let cx ← getNat j "cx"
+    let cw ← getNat j "cw"
+    let cpu ← getNat j "cpu"
+    if cpu = 0 then throw "bad-op"
+    let opsJ ← getArr j "ops"
+    -- (state, history so far, (weighted, threads) of the objects, answers)
+    let mut st : Sess Tab := Sess.init t0
+    let mut hist : List (SOp Tab) := []
+    let mut objs : List (Bool × Nat) := []
+    let mut out : List Json := []
+    for oj in opsJ.toList do
+      let kind ← getStr oj "k"
+      let op : SOp Tab ← match kind with
+        | "build" => do
+          let a ← getBool oj "audit"
+          pure (SOp.build a)
+        | "estimate" => do
+          let k ← getNat oj "obj"
+          match oj.getObjVal? "boot" with
+          | .ok Json.null => pure (SOp.estimate k none)
+          | .ok v => do
+            let rs ← (← asArr v).toList.mapM resampleOf
+            pure (SOp.estimate k (some rs))
+          | .error _ => throw "bad-op"
+        | "query" => do pure (SOp.query (← getNat oj "obj"))
+        | _ => do pure (SOp.edit (← editOf oj))
+      if kind == "build" then
+        objs := objs ++ [(← getBool oj "weighted", resolveThreads (← getNat oj "T") cpu)]
+      st := st.step op
+      hist := hist ++ [op]
+      if kind == "query" then
+        let k ← getNat oj "obj"
+        match objs[k]? with
+        | none => throw "bad-op"
+        | some (wt, T) =>
+          let ro := rowsOfTab b0 cl cx cw
+          out := out ++ [Json.mkObj [("obj", jNat k),
+            ("synced", jBool ((synced hist).2.contains k)),
+            ("engine", jMat (st.engines.getD k st.data)), ("data", jMat st.data),
+            ("full", jMat st.fullData),
+            ("L", fbits (st.reportedLoglike k ro wt T false)),
+            ("Ls", fbits (st.reportedLoglike k ro wt T true))]]
+    pure (Json.mkObj [("queries", jArr out), ("objects", jNat st.engines.length)])
+  | "dbsplit" =>
+    -- Database.split(k) after the shuffle (rows by position in the table)
+    let sh ← natList (← j.getObjVal? "shuffled")
+    let k ← getNat j "k"
+    if k = 0 then throw "bad-op"
+    pure (Json.mkObj [("pairs", jArr ((dbSplit sh k).map fun p => jArr [jNats p.1, jNats p.2]))])
   | _ => throw "bad-op"
 
 def main : IO Unit := Drv.run handle
